@@ -9,11 +9,12 @@ from . import oalsyn, prebuildfix, c11_consistency
 from .oalgen import node_span, EXPRESSION_NODES, STATEMENT_NODES
 from .gen_schema import Schema
 from .core import Violation, hyp_run, Res, exc_bucket, TimeLimit
-from .c15_callables import CONSTS, CONSTS2, OAL_TY
+from .c15_callables import CONSTS, CONSTS2, OAL_TY, SM_DEFS
 
 PROPERTY = 'C06'
-RULE = ('the fixtures of C05 (generated name-resolved bodies in function, bridge, class/instance operation and derived '
-        'attribute homes of a synthesised BridgePoint model) after prebuild_model. Validity predicates computed by the '
+RULE = ('the fixtures of C05 (generated name-resolved bodies in function, bridge, class/instance operation, derived '
+        'attribute, state and transition action homes of a synthesised BridgePoint model with three state machines; bodies '
+        'include generate / create event statements with event data and reads of received event data) after prebuild_model. Validity predicates computed by the '
         'harness: (1) zero violations under the harness\'s own multiplicity / uniqueness counter over the ooaofooa schema '
         '(read from bridgepoint/schema.py by the harness reader) and agreement of is_consistent(); (2) every ACT_SMT / '
         'V_VAL has exactly one subtype across R603 / R801; (3) as persisted: Previous_Statement_ID of statement k is the '
@@ -145,6 +146,7 @@ class Expect(object):
         self.params = []         # parameter lists: [param nodes]
         self.chains = []         # (select node, [steps])
         self.sc = Scopes()
+        self.feats = set()
         self.nblocks = 0
         self.attr_types = {}
         for cl in fx.D['classes']:
@@ -242,6 +244,21 @@ class Expect(object):
                 self.block(s['else_clause']['block'])
         elif t == 'InvocationStatementNode':
             self.expr(s['invocation'])
+        elif t in ('GenerateInstanceEventNode', 'GenerateClassEventNode', 'GenerateCreatorEventNode',
+                   'CreateInstanceEventNode', 'CreateClassEventNode', 'CreateCreatorEventNode'):
+            # event data items are values chained like the parameters of an invocation; the receiving variable of
+            # 'to <variable>' is referred to by name (no value of its own)
+            items = s['event_specification']['event_data']['children']
+            self.feats.add('event-statement')
+            if len(items) >= 2:
+                self.feats.add('event-data>=2')
+            self.params.append(items)
+            for it in items:
+                self.expr(it['expression'])
+            if t.startswith('Create'):
+                self.declare_if_new(s['variable_name'], 'inst<Event>')
+        elif t == 'GeneratePreexistingNode':
+            self.expr(s['variable_access'])
         # break / continue / control / create-no-var / delete / relate / unrelate: no expressions, no declarations
 
     def expr(self, e, selected=None):
@@ -264,7 +281,7 @@ class Expect(object):
             d = self.sc.find(e['variable_name'])
             ty = d['ty'] if d and d['ty'] != 'array' else None
         elif t == 'SelfAccessNode':
-            ty = 'inst_ref<%s>' % self.c.cls if self.c.cls and self.c.kind in ('instop', 'derived') else None
+            ty = 'inst_ref<%s>' % self.c.cls if self.c.cls and (self.c.kind in ('instop', 'derived') or (self.c.kind in ('state', 'txn') and SM_DEFS[self.c.sm[0]]['kind'] == 'ism')) else None
         elif t == 'SelectedAccessNode':
             ty = 'selected:%s' % selected if selected else None
         elif t == 'ParamAccessNode':
@@ -315,7 +332,7 @@ def check_action(fx, c, info, res_classes):
         raise Violation(bucket, info, '%s:%s: %s\n%s' % (c.kind, c.name, detail, fx.source[c.kind + ':' + c.name]))
     home = fx.home(c)
     rel = {'function': ('ACT_FNB', 695), 'bridge': ('ACT_BRB', 697), 'classop': ('ACT_OPB', 696), 'instop': ('ACT_OPB', 696),
-           'derived': ('ACT_DAB', 693)}[c.kind]
+           'derived': ('ACT_DAB', 693), 'state': ('ACT_SAB', 691), 'txn': ('ACT_TAB', 688)}[c.kind]
     body = xtuml.navigate_one(home).nav(rel[0], rel[1])()
     act_act = one(body).ACT_ACT[698]()
     if act_act is None:
@@ -459,7 +476,7 @@ def check_action(fx, c, info, res_classes):
 
 def run_case(case, res=None):
     try:
-        fx = prebuildfix.Fixture(case['tape'], case['order'], case=case.get('kwcase'))
+        fx = prebuildfix.Fixture(case['tape'], case['order'], case=case.get('kwcase'), texts=case.get('texts'), states=case.get('states'))
     except Exception as e:
         raise Violation('fixture-exception:' + exc_bucket(e), case, repr(e))
     info = dict(case, bodies=fx.source)
@@ -478,12 +495,19 @@ def run_case(case, res=None):
     except Exception as e:
         fail('prebuild-exception:' + exc_bucket(e), repr(e))
     a, u = own_counts(fx.m)
+    # V_EPR's identifier spans two alternative referentials (SMedi_ID of a state machine event data item, PP_Id of a
+    # signal parameter): one of them is null in every instance - recorded as a known finding of its own, see DESIGN 9.2
+    n_epr = len(fx.m.select_many('V_EPR'))
+    u_epr = [x for x in u if x == 'V_EPR.PP_Id is null']
+    u = [x for x in u if x != 'V_EPR.PP_Id is null']
+    if len(u_epr) > n_epr:
+        fail('uniqueness:V_EPR.PP_Id', '%d null PP_Id values on %d V_EPR instances' % (len(u_epr), n_epr))
     if a:
         fail('multiplicity:' + a[0].split(':')[0], '%d violations, e.g. %s' % (len(a), a[:3]))
     if u:
         fail('uniqueness:' + u[0].split(' ')[0], '%d violations, e.g. %s' % (len(u), u[:3]))
-    if not fx.m.is_consistent():
-        fail('is-consistent-disagrees', 'harness counts 0 violations, is_consistent() is False')
+    if fx.m.is_consistent() != (not u_epr):
+        fail('is-consistent-disagrees', 'harness counts %d violations, is_consistent() is %r' % (len(u_epr), fx.m.is_consistent()))
     for c in fx.callables:
         ex, typed = check_action(fx, c, info, None)
         if res is not None:
@@ -491,7 +515,11 @@ def run_case(case, res=None):
             nt = ex.nblocks >= 2 and multi
             res.case(fx.source[c.kind + ':' + c.name], nt,
                      sample={'home': c.kind + ':' + c.name, 'text': ex.text, 'typed_values': typed} if nt and len(ex.text) < 1200 else None,
-                     classes=['home-' + c.kind, 'blocks-%d' % min(ex.nblocks, 4)])
+                     classes=['home-' + c.kind, 'blocks-%d' % min(ex.nblocks, 4)] + ['f:' + f for f in sorted(ex.feats)])
+    if u_epr:
+        raise Violation('uniqueness:V_EPR-alternative-identifier-null', info,
+                        'a state / transition action reads event data (param.x / rcvd_evt.x): the V_EPR instance has PP_Id null, '
+                        'which check_uniqueness_constraint counts (%d)' % len(u_epr))
 
 
 def run(ctx):
@@ -505,7 +533,7 @@ def run(ctx):
         except Exception as e:
             raise Violation('harness-exception:' + exc_bucket(e), case, repr(e))
 
-    hyp_run(ctx, res, cases(), body, ctx.pick(60, 600), label='fixtures')
+    hyp_run(ctx, res, cases(), body, ctx.pick(100, 600), label='fixtures')
     return res
 
 
